@@ -48,11 +48,16 @@ def make_data(rng, recipe=None):
             "t1": [rng.randint(0, 5) for _ in range(rng.randint(1, 3))],
             "o1": {"attrs": {"a": rng.randint(20, 29), "both": 31}, "items": {"both": 32, "k": 33, "a2": 34}},
             "b1": rng.choice([True, False]),
+            "m1": rng.choice(["<b>x</b>", "<i>", "a&amp;b", ""]),
         }
     data = dict(recipe)
     data["t1"] = tuple(recipe["t1"])
     data["o1"] = Obj(recipe["o1"]["attrs"], recipe["o1"]["items"])
     data["n1"] = None
+    if "m1" in recipe:
+        from markupsafe import Markup
+
+        data["m1"] = Markup(recipe["m1"])
     return recipe, data
 
 
@@ -143,6 +148,9 @@ class Gen:
                 return self.name_of("str")
             return C(r.choice(["a", "", "xy", "Q ", "1", "<b>"]))
         k = r.random()
+        if "markup" in self.f and k < 0.12:
+            # safe strings: a Markup value from the data or a |safe-marked string
+            return N("m1") if r.random() < 0.5 else ["filter", self.str_(d - 1), "safe", [], []]
         if k < 0.35:
             return ["bin", "~", self.any_(d - 1), self.any_(d - 1)]
         if k < 0.45:
@@ -165,6 +173,9 @@ class Gen:
             return ["call", ["attr", self.str_(d - 1), self.pick(["upper", "strip", "title"])], [], []]
         if k < 0.96:
             return ["filter", self.undef_(d - 1), "default", [self.str_(d - 1)], []]
+        if "markup" in self.f:
+            # replace on a safe string: argument escaping is filter-contract territory (C24)
+            return ["filter", self.str_(d - 1), "upper", [], []]
         return ["filter", self.str_(d - 1), "replace", [self.str_(0), self.str_(0)], []]
 
     # ------------------------------------------------------------ bools
